@@ -18,7 +18,9 @@ def gf : Flags := generatedFlags
 theorem gf_facts : gf.surnamesRespectVisibility = true ∧ gf.placesRespectHide = true ∧ gf.hideLettersFromDead = true := by
   decide
 
-theorem gf_keys : gf.keysSkipHidden = true := by decide
+/-- the fact of the naming model of C19: only the people who get a page are given a key
+    (regenerated; b935843) -/
+theorem keys_skip_hidden : Generated.keysSkipHidden = true := by decide
 
 /-- a living person with the private strings wiped -/
 def eraseP (p : PPerson) : PPerson :=
@@ -43,7 +45,7 @@ structure SameDoc (d d' : DocA) : Prop where
   people : SamePeople d.people d'.people
   fams : d.fams = d'.fams
   others : d.otherEvents = d'.otherEvents
-  sources : d.nSources = d'.nSources
+  sources : d.sourcePtrs = d'.sourcePtrs
 
 theorem eraseP_eq_of_same {p q : PPerson} (h1 : p.pub = q.pub) (h2 : p.st = q.st)
     (h3 : p.pub.living = false → p = q) : eraseP p = eraseP q := by
@@ -135,9 +137,12 @@ theorem placeEvents_erase (d : DocA) : placeEvents gf (erase d) .hide = placeEve
   simp only [h, Bool.true_and, erase]
   rw [filter_map_eraseP _ (by intro p hp; simp [hp])]
 
+theorem placeKeyOf_erase (d : DocA) : placeKeyOf (erase d) = placeKeyOf d := by
+  funext e; simp [placeKeyOf, erase]
+
 theorem places_erase (d : DocA) : places gf (erase d) .hide = places gf d .hide := by
   unfold places
-  rw [placeEvents_erase]
+  rw [placeEvents_erase, placeKeyOf_erase]
 
 theorem header_erase (d : DocA) (o : Opts) (n : Nat) (extra : Str) :
     headerAtoms gf (erase d) .hide o n extra = headerAtoms gf d .hide o n extra := by
@@ -256,38 +261,108 @@ theorem siteOf_erase (d : DocA) (o : Opts) : siteOf gf (erase d) .hide o = siteO
   simp only [e, individualListPage_erase, individualPage_erase, placeListPage_erase, placePage_erase,
     familyListPage_erase, surnameListPage_erase]
 
-theorem keyed_hide (p : PPerson) : keyed gf .hide p = !p.pub.living := by
-  simp [keyed, gf_keys, hiddenP]
+/-! ### the key hand-out of the naming model (`Publish.individualKeysV`) -/
 
-theorem skip_hide : (fun p => !keyed gf .hide p) = (fun (p : PPerson) => p.pub.living) := by
-  funext p; simp [keyed_hide]
+/-- two name lists agree on the people that are not hidden -/
+inductive AgreeOnShown : List Str → List Str → List Bool → Prop
+  | nil : AgreeOnShown [] [] []
+  | hidden (a b : Str) {as bs hs} : AgreeOnShown as bs hs → AgreeOnShown (a :: as) (b :: bs) (true :: hs)
+  | shown (a : Str) {as bs hs} : AgreeOnShown as bs hs → AgreeOnShown (a :: as) (a :: bs) (false :: hs)
 
-/-- page names are handed out to the people who are not living; erasing the living commutes -/
-theorem assignKeys_erase (ks : List Str) (l : List PPerson) :
-    assignKeys (fun p => p.pub.living) ks (l.map eraseP) =
-      (assignKeys (fun p => p.pub.living) ks l).map eraseP := by
-  induction l generalizing ks with
+theorem zipFilter_agree {as bs : List Str} {hs : List Bool} (h : AgreeOnShown as bs hs) :
+    Publish.zipFilter as hs = Publish.zipFilter bs hs := by
+  induction h with
   | nil => rfl
+  | hidden a b _ ih => simp [Publish.zipFilter, ih]
+  | shown a _ ih => simp [Publish.zipFilter, ih]
+
+/-- **Joint theorem with C19 (the b935843 property), for every site.**  The page keys of all
+    people — hence every individual file name and every link target — are the same for two
+    documents whose written names differ only for hidden people: a hidden living person takes no
+    key, so nobody's `-1`, `-2`, … depends on a hidden namesake. -/
+theorem keys_independent_of_hidden_names {names names' : List Str} {hidden : List Bool}
+    (h : AgreeOnShown names names' hidden) (avoid : List Str) :
+    Publish.individualKeysV names hidden avoid = Publish.individualKeysV names' hidden avoid := by
+  unfold Publish.individualKeysV Publish.keyedNames
+  simp only [keys_skip_hidden, ↓reduceIte, zipFilter_agree h]
+
+/-- a hidden person is handed no key -/
+theorem hidden_take_no_key (ks : List Str) (hs : List Bool) (i : Nat) (h : hs[i]? = some true) :
+    (Publish.assignKeys ks hs)[i]? = some none := by
+  induction hs generalizing ks i with
+  | nil => simp at h
+  | cons b bs ih =>
+    cases i with
+    | zero =>
+      simp only [List.getElem?_cons_zero, Option.some.injEq] at h
+      subst h
+      cases ks <;> simp [Publish.assignKeys]
+    | succ j =>
+      simp only [List.getElem?_cons_succ] at h
+      cases b with
+      | true => simp only [Publish.assignKeys, List.getElem?_cons_succ]; exact ih _ j h
+      | false =>
+        cases ks with
+        | nil => simp only [Publish.assignKeys, List.getElem?_cons_succ]; exact ih _ j h
+        | cons k ks' => simp only [Publish.assignKeys, List.getElem?_cons_succ]; exact ih _ j h
+
+theorem titles_agree (l : List PPerson) :
+    AgreeOnShown ((l.map eraseP).map (fun p => p.pp.title)) (l.map (fun p => p.pp.title))
+      (l.map (fun p => hiddenP p .hide)) := by
+  induction l with
+  | nil => exact .nil
   | cons p ps ih =>
     by_cases hl : p.pub.living = true
-    · simp [assignKeys, hl, ih]
+    · simp only [List.map_cons, hiddenP_hide, hl]
+      exact .hidden _ _ (by simpa [hiddenP_hide] using ih)
+    · have hd : p.pub.living = false := by simpa using hl
+      simp only [List.map_cons, hiddenP_hide, hd, eraseP_dead p hd]
+      exact .shown _ (by simpa [hiddenP_hide] using ih)
+
+theorem hidden_flags_erase (l : List PPerson) (v : Vis) :
+    (l.map eraseP).map (fun p => hiddenP p v) = l.map (fun p => hiddenP p v) := by
+  simp [hiddenP]
+
+theorem avoidKeys_erase (d : DocA) (o : Opts) : avoidKeys gf (erase d) .hide o = avoidKeys gf d .hide o := by
+  unfold avoidKeys
+  rw [places_erase]
+  simp [erase]
+
+theorem pageKeys_erase (d : DocA) (o : Opts) : pageKeys gf (erase d) .hide o = pageKeys gf d .hide o := by
+  unfold pageKeys
+  rw [avoidKeys_erase]
+  simp only [erase, hidden_flags_erase]
+  exact keys_independent_of_hidden_names (titles_agree d.people) _
+
+/-- writing the keys commutes with erasing the living, because hidden people are handed `none` -/
+theorem setPages_erase (ks : List Str) (l : List PPerson) :
+    setPages (Publish.assignKeys ks (l.map (fun p => hiddenP p .hide))) (l.map eraseP) =
+      (setPages (Publish.assignKeys ks (l.map (fun p => hiddenP p .hide))) l).map eraseP := by
+  induction l generalizing ks with
+  | nil => cases ks <;> simp [Publish.assignKeys, setPages]
+  | cons p ps ih =>
+    by_cases hl : p.pub.living = true
+    · simp only [List.map_cons, hiddenP_hide, hl, Publish.assignKeys, setPages, List.cons.injEq, true_and]
+      simpa [hiddenP_hide] using ih _
     · have hd : p.pub.living = false := by simpa using hl
       have he : eraseP p = p := eraseP_dead p hd
       cases ks with
-      | nil => simp [assignKeys, hd, he, ih]
+      | nil =>
+        simp only [List.map_cons, hiddenP_hide, hd, Publish.assignKeys, setPages, he, List.cons.injEq, true_and]
+        simpa [hiddenP_hide] using ih []
       | cons k ks' =>
         have he' : eraseP { p with priv := { p.priv with page := k ++ Publish.html } } =
             { p with priv := { p.priv with page := k ++ Publish.html } } := eraseP_dead _ hd
-        simp [assignKeys, hd, he, he', ih]
+        simp only [List.map_cons, hiddenP_hide, hd, Publish.assignKeys, setPages, he, he', List.cons.injEq, true_and]
+        simpa [hiddenP_hide] using ih ks'
 
 theorem rekey_erase (d : DocA) (o : Opts) : rekey gf (erase d) .hide o = erase (rekey gf d .hide o) := by
   unfold rekey
-  rw [places_erase]
-  have e : (erase d).people.filter (keyed gf .hide) = d.people.filter (keyed gf .hide) := by
-    simp only [erase]
-    exact filter_map_eraseP _ (by intro p hp; simp [keyed_hide, hp]) _
-  simp only [e, skip_hide]
-  simp only [erase, assignKeys_erase]
+  rw [pageKeys_erase]
+  simp only [erase]
+  congr 1
+  unfold pageKeys Publish.individualKeysV
+  exact setPages_erase _ _
 
 theorem site_erase (d : DocA) (o : Opts) : Pages.site gf (erase d) .hide o = Pages.site gf d .hide o := by
   unfold Pages.site
@@ -328,8 +403,8 @@ def pDead : PPerson :=
   { pub := ⟨false, .male⟩, st := { spouses := [(some 0, none)] },
     priv := { (default : Priv) with surname := [84], page := [116], names := [[79]] },
     pp := { idxLetter := 116, listLetter := 116, title := [79] } }
-def docA : DocA := ⟨[pLiv [76] [80], pDead], [⟨some 1, some 0, [45]⟩], [], 0⟩
-def docB : DocA := ⟨[pLiv [77] [81], pDead], [⟨some 1, some 0, [45]⟩], [], 0⟩
+def docA : DocA := ⟨[pLiv [76] [80], pDead], [⟨some 1, some 0, [45]⟩], [], []⟩
+def docB : DocA := ⟨[pLiv [77] [81], pDead], [⟨some 1, some 0, [45]⟩], [], []⟩
 
 theorem docs_same : SameDoc docA docB :=
   ⟨.cons rfl rfl (by decide) (.cons rfl rfl (fun _ => rfl) .nil), rfl, rfl, rfl⟩
@@ -350,15 +425,20 @@ example : (Pages.site gf docA .hide oAll).map (·.1) =
 /-- a living person with the written name `t`, recorded before `pDead` (whose written name is "O") -/
 def nLiv (t : Str) : PPerson := { pLiv [76] [80] with pp := { (pLiv [76] [80]).pp with title := t } }
 
-/-- With the fact of the tree before the repair (every individual takes a page name, hidden or not)
-    the file name of a dead person depends on a living namesake: `o-1.html` vs `o.html`. -/
+/-- Before b935843 every individual took a page name, hidden or not (`individualKeys` over all
+    names): the key of a dead "O" recorded after a living "O" is `o-1`, and `o` once the living
+    person is renamed — the dependence `keys_independent_of_hidden_names` rules out. -/
 theorem page_key_leak_counterexample :
-    (Pages.site unrepairedFlags ⟨[nLiv [79], pDead], [], [], 0⟩ .hide oAll).map (·.1) ≠
-    (Pages.site unrepairedFlags ⟨[nLiv [80], pDead], [], [], 0⟩ .hide oAll).map (·.1) := by
+    (Publish.individualKeys [[79], [79]] [])[1]? ≠ (Publish.individualKeys [[80], [79]] [])[1]? := by
   decide
 
-/-- … and with the regenerated facts the same two documents publish the same files -/
-example : (Pages.site gf ⟨[nLiv [79], pDead], [], [], 0⟩ .hide oAll).map (·.1) =
-    (Pages.site gf ⟨[nLiv [80], pDead], [], [], 0⟩ .hide oAll).map (·.1) := by decide
+/-- … and with the regenerated facts the two documents publish the same files, the dead person as `o.html` -/
+example : (Pages.site gf ⟨[nLiv [79], pDead], [], [], []⟩ .hide oAll).map (·.1) =
+    (Pages.site gf ⟨[nLiv [80], pDead], [], [], []⟩ .hide oAll).map (·.1) := by decide
+example : ((Pages.site gf ⟨[nLiv [79], pDead], [], [], []⟩ .hide oAll).map (·.1)).contains ([111] ++ Publish.html) = true := by
+  decide
+/-- a person called "Places" keeps off the fixed page: `places-1.html` -/
+example : pageKeys gf ⟨[{ pDead with pp := { pDead.pp with title := bs "Places" } }], [], [], []⟩ .show oAll =
+    [some (bs "places-1")] := by decide
 
 end Gedcom.C17
